@@ -427,6 +427,10 @@ class WorkflowConductor(object):
         # Create an event for the request.
         wf_ex_event = events.WorkflowExecutionEvent(status)
 
+        # Reject the request before any task is affected if there is no such workflow transition.
+        if not machines.WorkflowStateMachine.is_transition_valid(current_status, status):
+            raise exc.InvalidWorkflowStatusTransition(current_status, wf_ex_event.name)
+
         # Push the event to all the active tasks. The event may trigger status changes to the task.
         for idx, task_state in self.workflow_state.get_tasks_by_status(statuses.ACTIVE_STATUSES):
             machines.TaskStateMachine.process_event(self.workflow_state, task_state, wf_ex_event)
